@@ -17,11 +17,11 @@
 //!                                                        the model run on the regenerated null-check table
 //!   ffi_str   {"fn": name, "payload": hex}                the string-taking extern "C" functions on arbitrary bytes (invalid UTF-8, …)
 //!   ffi_logger {"seq": ["stderr"|"callback", ...]}        the logger initialisers, in a CHILD process (a panic in extern "C" aborts)
-//!   request_time {"created_at": str, "year": int, "via": "request"|"example"}   a rule with a `request_time` variable on a
-//!                                                        request dated `created_at` — obs {"panics": bool} compared with the model
-//!                                                        (finding W8-F2: chrono's to_rfc2822 panics outside years 0..=9999)
-//! Known findings are only generated with `gen … --with-findings` (see notes/wp/W8.md): by default the generator keeps the
-//! two defect triggers out of every family, so that a run on the unchanged tree reports only NEW panics.
+//!   request_time {"created_at": str, "ymdhms": [y,m,d,H,M,S], "via": "request"|"example"}   a rule with a `request_time`
+//!                                                        variable on a request dated `created_at` — obs {"panics": bool, "value":
+//!                                                        the rendered variable} compared with the model (Model/PanicTime.lean)
+//! The two defects this harness found (W8-F1 logger re-initialisation, W8-F2 request_time x year outside 0..=9999) are repaired
+//! in /repo (6ded9a9, 2547641); their families are always generated and the models follow the repaired code.
 //! obs: {"ok": true} for the search families (the model predicts "returns normally"), see above for slice / ffi_null /
 //! ffi_logger.  A panic is caught by the framework (sig `panic`); an abort / stack overflow / hang kills the shard and is
 //! reported by ./check as `crash` on the first missing case.
@@ -413,7 +413,6 @@ const FFI_STR_FUNCS: &[&str] = &[
 
 fn gen(args: &Args, emit: &mut dyn FnMut(Value)) {
     let mut rng = Prng::new(args.seed);
-    let with_findings = args.extra.iter().any(|a| a == "--with-findings");
     // exhaustive: every extern "C" function under every null pattern of its nullable parameters
     for (name, n) in FFI_FUNCS {
         for mask in 0..(1u32 << n) {
@@ -421,27 +420,34 @@ fn gen(args: &Args, emit: &mut dyn FnMut(Value)) {
             emit(json!({"family": "ffi_null", "fn": name, "nulls": nulls, "exh": true}));
         }
     }
-    // logger initialisers (child process): the sequences that respect "initialise once" …
-    for seq in [vec!["stderr"], vec!["callback"], vec!["callback", "callback"]] {
-        emit(json!({"family": "ffi_logger", "seq": seq}));
-    }
-    // … and, on request, the ones that do not (finding W8-F1, see notes/wp/W8.md)
-    if with_findings {
-        for seq in [vec!["stderr", "stderr"], vec!["stderr", "callback"], vec!["callback", "stderr"]] {
-            emit(json!({"family": "ffi_logger", "seq": seq}));
-        }
-    }
-    // request_time: years the RFC 2822 formatter accepts; the others only on request (finding W8-F2)
-    for (d, y) in [("2000-01-01T00:00:00Z", 2000), ("0000-01-01T00:00:00Z", 0), ("9999-12-31T23:59:59Z", 9999), ("1970-01-01T00:00:00+14:00", 1969)] {
-        for via in ["request", "example"] {
-            emit(json!({"family": "request_time", "created_at": d, "year": y, "via": via}));
-        }
-    }
-    if with_findings {
-        for (d, y) in [("+10000-01-01T00:00:00Z", 10000), ("-0001-01-01T00:00:00Z", -1), ("+262142-12-31T23:59:59Z", 262142), ("9999-12-31T23:59:59-01:00", 10000)] {
-            for via in ["request", "example"] {
-                emit(json!({"family": "request_time", "created_at": d, "year": y, "via": via}));
+    // logger initialisers (child process): every sequence of length <= 3 (re-initialisation aborted before 6ded9a9)
+    for a in ["stderr", "callback"] {
+        emit(json!({"family": "ffi_logger", "seq": [a]}));
+        for b in ["stderr", "callback"] {
+            emit(json!({"family": "ffi_logger", "seq": [a, b]}));
+            for c in ["stderr", "callback"] {
+                emit(json!({"family": "ffi_logger", "seq": [a, b, c]}));
             }
+        }
+    }
+    // request_time: around both ends of the range the RFC 2822 formatter accepts (outside it panicked before 2547641)
+    for (d, c) in [
+        ("2000-01-01T00:00:00Z", [2000, 1, 1, 0, 0, 0]),
+        ("2003-07-01T10:52:37Z", [2003, 7, 1, 10, 52, 37]),
+        ("0000-01-01T00:00:00Z", [0, 1, 1, 0, 0, 0]),
+        ("9999-12-31T23:59:59Z", [9999, 12, 31, 23, 59, 59]),
+        ("1970-01-01T00:00:00+14:00", [1969, 12, 31, 10, 0, 0]),
+        ("2024-02-29T12:00:00Z", [2024, 2, 29, 12, 0, 0]),
+        ("1900-03-01T00:00:09Z", [1900, 3, 1, 0, 0, 9]),
+        ("+10000-01-01T00:00:00Z", [10000, 1, 1, 0, 0, 0]),
+        ("-0001-01-01T00:00:00Z", [-1, 1, 1, 0, 0, 0]),
+        ("-0001-12-31T23:59:59Z", [-1, 12, 31, 23, 59, 59]),
+        ("+262142-12-31T23:59:59Z", [262142, 12, 31, 23, 59, 59]),
+        ("9999-12-31T23:59:59-01:00", [10000, 1, 1, 0, 59, 59]),
+        ("0000-01-01T00:00:00+01:00", [-1, 12, 31, 23, 0, 0]),
+    ] {
+        for via in ["request", "example"] {
+            emit(json!({"family": "request_time", "created_at": d, "ymdhms": c, "via": via}));
         }
     }
     // slice boundaries, exhaustively on three short strings
@@ -529,26 +535,25 @@ fn gen(args: &Args, emit: &mut dyn FnMut(Value)) {
                     let n = s.len() as u64;
                     let idx = |r: &mut Prng| match r.below(4) { 0 => r.below(n as usize + 2) as u64, 1 => u64::MAX, 2 => n, _ => r.below(4) as u64 };
                     json!({"family": "slice", "s": hex(s.as_bytes()), "from": idx(&mut rng), "to": if rng.chance(1, 4) { Value::Null } else { json!(idx(&mut rng)) }})
-                } else {
+                } else if rng.chance(1, 2) {
                     json!({"family": "ffi_str", "fn": *rng.pick(FFI_STR_FUNCS), "payload": hex(&pick_bytes(&mut rng, 80))})
+                } else {
+                    // a random UTC instant, years -260000..=260000 (chrono covers about +-262000) with both ends of 0..=9999 favoured
+                    let y: i64 = match rng.below(6) {
+                        0 => rng.below(520001) as i64 - 260000,
+                        1 => 9990 + rng.below(20) as i64,
+                        2 => rng.below(20) as i64 - 10,
+                        _ => 1900 + rng.below(300) as i64,
+                    };
+                    let (mo, d, h, mi, sec) = (rng.below(12) + 1, rng.below(28) + 1, rng.below(24), rng.below(60), rng.below(60));
+                    let ys = if (0..=9999).contains(&y) { format!("{y:04}") } else { format!("{y:+05}") };
+                    json!({"family": "request_time", "created_at": format!("{ys}-{mo:02}-{d:02}T{h:02}:{mi:02}:{sec:02}Z"), "ymdhms": [y, mo, d, h, mi, sec], "via": *rng.pick(&["request", "example"])})
                 }
-            }
-        };
-        // keep the trigger of the known finding W8-F2 (request_time variable x year outside 0..=9999) out of the search
-        // families; it has its own family with a model
-        let case = {
-            let text = case.to_string();
-            if text.contains("request_time") && OUT_OF_RANGE_DATES.iter().any(|d| text.contains(d)) {
-                serde_json::from_str(&text.replace("\"request_time\"", "\"request_scheme\"")).unwrap()
-            } else {
-                case
             }
         };
         emit(case);
     }
 }
-
-const OUT_OF_RANGE_DATES: &[&str] = &["+10000-01-01T00:00:00Z", "-0001-01-01T00:00:00Z", "+262142-12-31T23:59:59Z"];
 
 // ------------------------------------------------------------------------------------------------
 // run
@@ -1200,21 +1205,23 @@ const RT_RULE: &str = r#"{"id":"rt","source":{"path":"/a"},"rank":0,"target":"/t
   "configuration_log_unit_id":null,"configuration_reset_unit_id":null,"target_hash":null}"#;
 
 fn run_request_time(case: &Value) -> Obs {
-    use chrono::Datelike;
+    use chrono::{Datelike, Timelike};
     let created_at = s(case, "created_at").unwrap_or_default();
-    let year = case.get("year").and_then(|y| y.as_i64());
-    let parsed = created_at.parse::<chrono::DateTime<chrono::Utc>>();
-    match (&parsed, year) {
-        (Ok(dt), Some(y)) if dt.year() as i64 == y => {}
-        _ => return Obs::invalid("request_time: created_at does not parse to the stated year"),
+    let want: Vec<i64> = arr(case, "ymdhms").iter().filter_map(|x| x.as_i64()).collect();
+    match created_at.parse::<chrono::DateTime<chrono::Utc>>() {
+        Ok(dt) if want == vec![dt.year() as i64, dt.month() as i64, dt.day() as i64, dt.hour() as i64, dt.minute() as i64, dt.second() as i64] && dt.nanosecond() == 0 => {}
+        _ => return Obs::invalid("request_time: created_at does not parse to the stated UTC fields"),
     }
     let rule: Rule = serde_json::from_str(RT_RULE).unwrap();
     let via = s(case, "via").unwrap_or_default();
+    // the rendered variable = what follows "/t/" in the Location header
+    let location = |headers: Vec<(String, String)>| -> Option<String> { headers.into_iter().find(|(n, _)| n == "Location").map(|(_, v)| v.trim_start_matches("/t/").to_string()) };
     let res = std::panic::catch_unwind(|| {
         if via == "example" {
             let input: ExplainRequestInput = serde_json::from_value(json!({"router_config": {}, "rules": [serde_json::to_value(&rule).unwrap()], "max_hops": 2,
                 "example": {"url": "/a", "method": null, "headers": null, "datetime": created_at, "ip_address": null, "response_status_code": null, "must_match": true, "unit_ids_applied": null}})).unwrap();
-            ExplainRequestOutput::create_result_without_project(input).map(|o| serde_json::to_value(&o).unwrap()["response"]["headers"].to_string()).unwrap_or_default()
+            let out = ExplainRequestOutput::create_result_without_project(input).map(|o| serde_json::to_value(&o).unwrap()).unwrap_or(Value::Null);
+            location(out["response"]["headers"].as_array().cloned().unwrap_or_default().iter().map(|h| (h["name"].as_str().unwrap_or("").to_string(), h["value"].as_str().unwrap_or("").to_string())).collect())
         } else {
             let config = RouterConfig::default();
             let mut router = Router::<Rule>::from_config(config.clone());
@@ -1222,15 +1229,15 @@ fn run_request_time(case: &Value) -> Obs {
             let mut request = Request::from_config(&config, "/a".to_string(), None, None, None, None, None);
             request.set_created_at(Some(created_at.clone()));
             let mut action = Action::from_routes_rule(router.match_request(&request), &request, None);
-            format!("{:?}", action.filter_headers(Vec::new(), 302, false, None))
+            location(action.filter_headers(Vec::new(), 302, false, None).into_iter().map(|h| (h.name, h.value)).collect())
         }
     });
-    let panics = res.is_err();
-    let o = Obs::new(json!({"panics": panics})).tag(format!("request_time:{}", if panics { "panic" } else { "ok" }));
-    if panics {
-        o.fail(format!("a rule with a request_time variable panics on a request dated {created_at} (DateTime::to_rfc2822)"), "request-time-rfc2822")
-    } else {
-        o
+    match res {
+        Ok(value) => Obs::new(json!({"panics": false, "value": value})).tag("request_time:ok"),
+        Err(_) => Obs::new(json!({"panics": true})).tag("request_time:panic").fail(
+            format!("a rule with a request_time variable panics on a request dated {created_at} (DateTime::to_rfc2822)"),
+            "request-time-rfc2822",
+        ),
     }
 }
 
